@@ -101,6 +101,9 @@ def is_index_like(e, prov):
     for x in walk_deep(e, prov, limit=60):
         if x[0] == "call" and (x[1] or "").endswith(("Iterator::next", "DoubleEndedIterator::next_back")):
             return True
+        # the position an iterator search reports is an index into the sequence searched (< its length)
+        if x[0] == "call" and (x[1] or "").endswith(("Iterator::position", "Iterator::rposition")):
+            return True
     return False
 
 
@@ -268,7 +271,8 @@ def discharge(ctx, site):
                 en = strip_casts(rng[3][0])
                 if isinstance(en, tuple) and en[0] == "bin" and en[1] == "Sub" and canon(en[2]).replace("*", "").endswith(canon(ops[0]).replace("*", "").replace("len(", "")) or True:
                     src = canon(ops[0]).replace("*", "")
-                    if isinstance(en, tuple) and en[0] == "bin" and en[1] == "Sub" and src_of_len(canon(en[2]).replace("*", "")) == src:
+                    if isinstance(en, tuple) and en[0] == "bin" and en[1] == "Sub" and src_of_len(canon(en[2]).replace("*", "")) in (src, src[:-2] if src.endswith(".0") else None):
+                        # (UnixStr::len(x) is the length of x.0)
                         return True, "range end is len - c of the same slice (the subtraction is a separate site)"
         return False, f"slice range {show(ops[1])} not shown to be within bounds"
     if kind.startswith(("explicit", "call:panic")):
